@@ -92,6 +92,22 @@ def oracle_c08(evs, term):
         elif e.kind == "O":
             if e.task != running:
                 return "operation of task %d recorded while task %s was the one chosen" % (e.task, running)
+    # the yielding flag: set exactly for the decision that follows an explicit yield request of the running task.
+    # In the program language only yield_now (record 3), a park that blocks (4) and a future's yield_now (35) request
+    # a yield; the record of an operation is written when the operation returns, i.e. after its decision.
+    last_dec_of = {}
+    for i, e in enumerate(evs):
+        if e.kind == "D":
+            if e.cur is not None:
+                last_dec_of[e.cur] = (i, bool(e.y))
+                if e.y:
+                    nxt = next((x for x in evs[i + 1:] if x.kind == "O" and x.task == e.cur), None)
+                    if nxt is not None and nxt.tag not in (3, 4, 35):
+                        return "decision %d was taken with the yielding flag set although task %d had not requested a yield (its next completed operation has tag %d)" % (i, e.cur, nxt.tag)
+        elif e.kind == "O" and e.tag == 3:
+            d = last_dec_of.get(e.task)
+            if d is not None and not d[1]:
+                return "yield_now of task %d returned, but the decision that followed its yield request (%d) did not carry the yielding flag" % (e.task, d[0])
     return None
 
 
